@@ -27,6 +27,8 @@ PLAN = {
     "C13c": ["C13", "C12"], "C12": ["C12"],
     "C01e": ["C01", "C05", "C14"], "C03e": ["C03", "C08"], "C05e": ["C05", "C15"], "C06e": ["C06", "C04"], "C09e": ["C09", "C02"],
     "C13e": ["C13"], "C19e": ["C19", "C16"], "C07e": ["C07", "C10"],
+    "C02f": ["C02", "C04"], "C04f": ["C04"], "C08f": ["C08", "C17", "C01"], "C10f": ["C10", "C01"], "C11f": ["C11"], "C12f": ["C12"],
+    "C14f": ["C14", "C05"], "C15f": ["C15"], "C16f": ["C16"], "C17f": ["C17"], "C18f": ["C18"], "C20f": ["C20", "C16", "C09"],
     "C14d": ["C14", "C05"], "C08d": ["C08", "C03"], "C20d": ["C20", "C09"], "C16d": ["C16"],
 }
 
